@@ -1,5 +1,6 @@
 From Coq Require Import Extraction ExtrOcamlBasic.
-From PV Require Import Lib.ExtractBase Model.Provider Model.Preload Model.PreloadContent.
+From PV Require Import Lib.ExtractBase Model.Provider Model.Preload Model.PreloadContent Model.PreloadMw.
 Extraction Language OCaml.
 Extraction "extracted/C14_model.ml" xb_types deliver chosen_entries bound cyc_prefix ids spec14_b constructor_refuses
-  deliver_c file_entries chosen_content view_of spec14c_b.
+  deliver_c file_entries chosen_content view_of spec14c_b
+  deliver_m view_m req_spec init_fails spec14m_b.
